@@ -151,6 +151,8 @@ def state_symbols(c):
 
 def is_threshold_cond(c, kind):
     """A comparison whose free symbols are only the argument and the thresholds (evaluable on a witness cell)."""
+    if isinstance(c, (sp.And, sp.Or, sp.Not)):
+        return all(is_threshold_cond(a_, kind) for a_ in c.args)
     if not isinstance(c, (sp.Lt, sp.Gt, sp.Le, sp.Ge, sp.Eq, sp.Ne)):
         return False
     names = {x.name for x in c.free_symbols}
